@@ -43,6 +43,18 @@ func (i *IRCServer) cmdServerNick(s *Session, reply *Replyctx, msg *irc.Message)
 
 	// s.LastActivity is the timestamp of the robust.Message which
 	// contains the server_NICK command we’re processing.
+	if _, ok := i.sessions[id]; ok {
+		// The id is derived from the nickname, so it collides when the
+		// pseudo-client that was introduced under this nickname still exists
+		// under a different nickname (SVSNICK). Never overwrite a session.
+		i.sendServices(reply, &irc.Message{
+			Prefix:  i.ServerPrefix,
+			Command: irc.ERR_NICKNAMEINUSE,
+			Params:  []string{"*", msg.Params[0], "Nickname is already in use"},
+		})
+		return
+	}
+
 	if err := i.createSessionLocked(id, "", s.LastActivity); err != nil {
 		i.sendServices(reply, &irc.Message{
 			Prefix:  i.ServerPrefix,
